@@ -68,6 +68,7 @@ var glUnits = []glUnit{
 		{"attachment", "baseStreamDataHandle", "GetDataOffsetAndLen"},
 		{"attachment", "heiBiaoStreamDataHandle", "HasMinHeadLen"},
 		{"attachment", "heiBiaoStreamDataHandle", "Parse"},
+		{"attachment", "PackageProgress", "parseJT808Message"},
 	}},
 	{"GoModel", []glTarget{
 		{"protocol/model", "P0x8001", "Encode"},
@@ -145,10 +146,7 @@ var glUnits = []glUnit{
 		{"protocol/model", "BaseHandle", "ReplyBody"},
 		{"protocol/model", "T0x0100", "ReplyBody"},
 		{"protocol/model", "T0x0102", "ReplyBody"},
-		{"protocol/model", "T0x0002", "ReplyBody"},
-		{"protocol/model", "T0x0200", "ReplyBody"},
 		{"protocol/model", "T0x0801", "ReplyBody"},
-		{"protocol/model", "T0x0704", "ReplyBody"},
 		{"protocol/model", "T0x0200LocationItem", "parse"},
 	}},
 }
